@@ -52,14 +52,15 @@ def _dataclass_arguments(decorators: list[Decorator]) -> dict[str, Any]:
     return {}
 
 
-def _field_arguments(attribute: Attribute) -> dict[str, Any]:
+def _field_arguments(attribute: Attribute) -> dict[str, Any] | None:
+    # Arguments of the `field(...)` call, `None` when the value is not such a call.
     if attribute.value:
         value = attribute.value
         if isinstance(value, ExprAttribute):
             value = value.last
         if isinstance(value, ExprCall) and value.canonical_path == "dataclasses.field":
             return _expr_args(value)
-    return {}
+    return None
 
 
 @cache
@@ -100,6 +101,8 @@ def _dataclass_parameters(class_: Class) -> list[Parameter]:
 
             # Fetch `field` arguments if any.
             field_args = _field_arguments(member)
+            is_field_call = field_args is not None
+            field_args = field_args or {}
 
             # Parameter not added to `__init__`, skip it.
             if field_args.get("init") == "False":
@@ -119,7 +122,7 @@ def _dataclass_parameters(class_: Class) -> list[Parameter]:
             if "default_factory" in field_args:
                 default = ExprCall(function=field_args["default_factory"], arguments=[])
             else:
-                default = field_args.get("default", None if field_args else member.value)
+                default = field_args.get("default", None if is_field_call else member.value)
 
             # Add parameter to the list.
             parameters.append(
